@@ -35,6 +35,8 @@ class ExecBase:
         self.loop_ids = {}          # id(ast node) -> ordinal
         self.discovering = 0
         self.notes = []
+        self.fold_seen = {}         # fold name -> lists it was applied to (for the point-update lemma)
+        self.card_in_seen = {}      # sets C that occurred in card_in(., C)
 
     # ---- obligations ---------------------------------------------------------------------
     def oblige(self, kind, st, goal, desc, line=None, extra=None):
@@ -198,8 +200,12 @@ class ExecBase:
         rec, fty = S.lookup_field(ref.ty.name, attr)
         if rec is None:
             raise UnsupportedError(f"assignment to unmodelled field {ref.ty.name}.{attr}")
+        pre = st.snapshot() if self.fold_seen else None
         st.heap.write(rec, attr, fty, ref.t, val)
         self.note_heap_write(st, rec, attr, ref.t)
+        if pre is not None:
+            from .speceval import fold_facts_point_update
+            st.assume(*fold_facts_point_update(self, rec, attr, ref.t, pre, st))
 
 
 _qcache = {}
